@@ -124,7 +124,9 @@ Record c07_var := {
   cv_data : c07_data
 }.
 
-Definition c07_ds := list c07_var.     (* data variables and coordinates, insertion order *)
+(* data variables and coordinates, insertion order; the dataset's global attributes are carried as
+   the attributes of one more data-less entry (named "@global" by the harness) *)
+Definition c07_ds := list c07_var.
 
 Definition c07_has (ds : c07_ds) (n : Z) : bool :=
   existsb (fun v => Z.eqb n (cv_name v)) ds.
